@@ -63,7 +63,7 @@ impl State for S {
     fn step(&mut self, ws: &[&str]) -> String {
         match ws {
             ["mix", _seed, _threads, _ops] => run_child(ws, Duration::from_secs(60)),
-            ["reentry", _op] => run_child(ws, Duration::from_millis(1500)),
+            ["reentry", _op] => run_child(ws, Duration::from_millis(4000)),
             _ => "bad-op".into(),
         }
     }
